@@ -5,17 +5,17 @@ ID = "C14"
 
 PROP = {'lean_props': ['Comrak.Props.C14'],
  'lean_audit': ['Comrak.Audit.C14'],
- 'required_theorems': ['tagfilter_eq_specC',
-                       'tagfilter_eq_spec_partial',
-                       'tagfilterBlock_eq_rewriteSpec_partial',
+ 'required_theorems': ['tagfilter_eq_spec',
+                       'tagfilterBlock_eq_rewriteSpec',
+                       'tagfilter_formfeed_filtered',
                        'no_disallowed_survives',
                        'no_disallowed_survives_partial',
                        'inline_filtered_iff',
                        'block_filtered',
                        'unfiltered_verbatim'],
- 'strength': "full for the code's own white-space class; equal to the GFM/HTML rule on every literal without form feed (counterexample theorem + "
-             'known finding for FF); "no such tag survives in an HTML block" is a theorem about the output itself (survivorsC (tagfilterBlock l) = 0 for every '
-             'literal; HTML white-space class on literals without FF; the driver\'s survivors counter is proved equal to survivorsH)',
+ 'strength': 'full: tagfilter l = disallowedAt l (the GFM rule with the HTML tokenizer\'s white space) for every literal, tagfilter_block = rewriteSpec '
+             'for every literal, and "no such tag survives in an HTML block" as a theorem about the output itself (survivorsH (tagfilterBlock l) = 0 for '
+             'every literal; the driver\'s survivors counter is proved equal to survivorsH). The form-feed gap of the pinned tree was repaired in /repo.',
  'trusted_base': ["recursive renderT/renderF stand for comrak's explicit work-stack traversal (exercised by the correspondence on deep and wide "
                   'trees, not proved)',
                   'anchor normalisation (Unicode lower-casing / category filter) is a parameter of the model; the harness supplies the real '
@@ -25,15 +25,13 @@ PROP = {'lean_props': ['Comrak.Props.C14'],
  'assumptions': ['raw HTML literals are valid UTF-8 (they are Rust Strings); the hook wrappers are only fed valid UTF-8']}
 
 TEXT = {'text': 'Proof. tagfilter and tagfilter_block are modelled with every index explicit; an independent specification of the GFM disallowed-raw-HTML '
-         'rule (disallowedAt, rewriteSpec) is written from the prose. Lean proves for every literal that the filter decides exactly that rule read '
-         "with comrak's white-space class, that this coincides with the HTML-tokenizer reading on every literal without form feed, that "
+         'rule (disallowedAt, rewriteSpec) is written from the prose. Lean proves for every literal that the filter decides exactly that rule (white space = tab, LF, FF, CR, space), that '
          "tagfilter_block rewrites exactly the '<' at disallowed positions and nothing else, and that the render cascade writes '&lt;'+rest / the "
          'rewritten block / the verbatim literal accordingly. '
          "That no disallowed tag survives is proved on the output: a rewritten '<' leaves no '<' behind, and the decision at a kept '<' reads only "
-         "'/', name letters, one delimiter byte and possibly '>', so rewriting later '<' to '&lt;' cannot change it (no_disallowed_survives, "
-         "_partial for the HTML white-space class). "
+         "'/', name letters, one delimiter byte and possibly '>', so rewriting later '<' to '&lt;' cannot change it (no_disallowed_survives). "
          'The pinned tree\'s index panic on literals like "<xmp" is repaired (fix: commit) and '
-         'kept as a Lean witness; the form-feed delimiter is refuted by a Lean counterexample and listed as a known finding. Tie to the code: the '
+         'kept as a Lean witness; form feed as a tag-name delimiter was missing on the pinned tree (the isspace of comrak has no FF) and is repaired too (tagfilter_formfeed_filtered). Tie to the code: the '
          "real tagfilter/tagfilter_block (hook) equal the model on all strings of length <= 3 (quick) / 4 (thorough) over the property's 23-symbol "
          'alphabet in three letter cases, on every name x cut x delimiter x case mask, on random longer literals and on every raw literal of '
          'generated documents; whole documents with tagfilter on/off are byte-equal to the model rendering.',
